@@ -23,7 +23,9 @@ Obligations of this file (every `theorem` below is counted by `check`):
   (`drops`: one pair left out at any depth);
 * the same round trip through the lexer's `between` flag and the `( a . b . c` quirk of the
   tables: `parse_print_surface_partial` (+ two counterexamples, findings F19 and F22);
-* layout: `layout_gap_skipped`, `layout_irrelevant` (any number of comments in a gap);
+* layout: `layout_gap_skipped`, `layout_irrelevant` (any number of comments in a gap),
+  `layout_keyword_gap_skipped`, `layout_keyword_gap_irrelevant` (the gap between `function` / `list` /
+  `range` / `context` and the bracket that makes it a keyword);
 * `string_escape_roundtrip` (all three spellings, every scalar value).
 -/
 
@@ -395,6 +397,27 @@ theorem layout_gap_skipped (g : Gap) (rest : List Nat) (hg : gapOk g = true)
 theorem layout_irrelevant (g1 g2 : Gap) (rest : List Nat) (h1 : gapOk g1 = true) (h2 : gapOk g2 = true)
     (hr : startsToken rest = true) : skipGap (gapText g1 ++ rest) = skipGap (gapText g2 ++ rest) := by
   rw [skipGap_gap g1 rest h1 hr, skipGap_gap g2 rest h2 hr]
+
+/-- The gap after `function`, `list`, `range`, `context` (and after `date` / `time` before a
+`:`): whether the keyword is recognised is decided by `is_next_character` (lexer.rs:965), which
+looks for `(` / `<` / `:` beyond white space AND comments (finding F33, repaired).  Whatever gap
+stands there, the answer is the one given by the first character of the next token. -/
+theorem layout_keyword_gap_skipped (chars : List Nat) (hc : plainChars chars = true) (g : Gap)
+    (rest : List Nat) (hg : gapOk g = true) (hr : startsToken rest = true) :
+    nextIs chars (gapText g ++ rest) = headIn chars rest :=
+  nextIs_gap chars hc g rest hg hr
+
+/-- Any two gaps after such a keyword are interchangeable. -/
+theorem layout_keyword_gap_irrelevant (chars : List Nat) (hc : plainChars chars = true) (g1 g2 : Gap)
+    (rest : List Nat) (h1 : gapOk g1 = true) (h2 : gapOk g2 = true) (hr : startsToken rest = true) :
+    nextIs chars (gapText g1 ++ rest) = nextIs chars (gapText g2 ++ rest) := by
+  rw [nextIs_gap chars hc g1 rest h1 hr, nextIs_gap chars hc g2 rest h2 hr]
+
+-- `function /* c */ ( a ) a` (the witness of F33): after ` /* c */ ` stands `(`
+example : plainChars [40, 60] = true ∧ gapOk [.ws [32], .comment (.block [32, 99, 32]), .ws [32]] = true ∧
+    startsToken [40, 32, 97] = true ∧ headIn [40, 60] [40, 32, 97] = true ∧
+    nextIs [40, 60] (gapText [.ws [32], .comment (.block [32, 99, 32]), .ws [32]] ++ [40, 32, 97]) = true := by
+  decide
 
 -- ` /* c */\n/**/` and `\t// x\n // y\n ` in front of `a`
 example : gapOk [.ws [32], .comment (.block [32, 99, 32]), .ws [10], .comment (.block [])] = true ∧
